@@ -356,7 +356,15 @@ static void emit_function(raw_ostream& o, Function& F) {
         if (st->getNumElements() < 1) break;
         path += ".f0"; cur = st->getElementType(0);
       }
-      if (ok && (et->isIntegerTy() || et->isFloatingPointTy() || et->isPointerTy())) {
+      // element types: scalars, and std::pair of scalars (trivially copyable: relocation is a plain copy)
+      bool pair_of_scalars = false;
+      if (auto* pst = dyn_cast<StructType>(et)) {
+        if (pst->hasName() && pst->getName().startswith("struct.std::pair") && pst->getNumElements() >= 2) {
+          pair_of_scalars = true;
+          for (Type* m : pst->elements()) if (!(m->isIntegerTy() || m->isFloatingPointTy() || m->isPointerTy() || (m->isArrayTy() && m->getArrayElementType()->isIntegerTy(8)))) pair_of_scalars = false;   // [n x i8] = tail padding
+        }
+      }
+      if (ok && (et->isIntegerTy() || et->isFloatingPointTy() || et->isPointerTy() || pair_of_scalars)) {
         std::string T = ctype(et);
         o << "#if defined(VERIF_CBMC) && defined(VERIF_VEC_CAP)\n"
           << "  { " << T << "* os = " << path << ".f0; " << T << "* of = " << path << ".f1;\n"
